@@ -37,7 +37,16 @@ fn duration(c: &str) -> Duration {
     }
 }
 
-fn env_value(c: &str) -> &'static str {
+/// sweep classes `cp:<hex>:<ctx>`: one character alone / in the middle / at the start / at the end of a short word
+fn swept(c: &str) -> Option<String> {
+    let mut it = c.split(':');
+    if it.next() != Some("cp") { return None; }
+    let ch = char::from_u32(u32::from_str_radix(it.next()?, 16).ok()?)?;
+    Some(match it.next()? { "alone" => ch.to_string(), "mid" => format!("a{ch}b"), "lead" => format!("{ch}b"), "trail" => format!("a{ch}"), _ => return None })
+}
+
+fn env_value(c: &str) -> String {
+    if let Some(v) = swept(c) { return v; }
     match c {
         "plain" => "value",
         "empty" => "",
@@ -61,7 +70,7 @@ fn env_value(c: &str) -> &'static str {
         "controls" => "a\tb\u{85}c\u{1}d\u{2028}e",
         "combining" => "cafe\u{301} \u{939}\u{93f}\u{928}\u{94d}\u{926}\u{940}",
         other => tool_error(&format!("unknown env class {other}")),
-    }
+    }.to_string()
 }
 
 fn build(v: &Value) -> TestCaseConfig {
@@ -88,10 +97,10 @@ fn build(v: &Value) -> TestCaseConfig {
         "dur_path_true" => Some(TestCaseWait { timeout: Duration::from_secs(2), path: Some(PathBuf::from("True")) }),
         "dur_path_num" => Some(TestCaseWait { timeout: Duration::from_secs(2), path: Some(PathBuf::from("123")) }),
         "dur_path_special" => Some(TestCaseWait { timeout: Duration::from_secs(2), path: Some(PathBuf::from("a\", b}#c")) }),
-        _ => None,
+        other => swept(other).map(|p| TestCaseWait { timeout: Duration::from_secs(2), path: Some(PathBuf::from(p)) }),
     };
     for (i, cls) in v["env"].as_array().unwrap().iter().enumerate() {
-        c.environment.insert(["VAR_ONE", "VAR_TWO"][i].to_string(), env_value(cls.as_str().unwrap()).to_string());
+        c.environment.insert(["VAR_ONE", "VAR_TWO"][i].to_string(), env_value(cls.as_str().unwrap()));
     }
     c
 }
